@@ -91,12 +91,18 @@ br_rsa_i31_private(unsigned char *x, const br_rsa_private_key *sk)
 	 */
 	mq = tmp;
 	br_i31_decode(mq, q, qlen);
+#ifdef BR_VERIF
+	BR_VERIF_PUBLIC(&mq[0], sizeof mq[0]);
+#endif
 
 	/*
 	 * Decode p.
 	 */
 	t1 = mq + fwlen;
 	br_i31_decode(t1, p, plen);
+#ifdef BR_VERIF
+	BR_VERIF_PUBLIC(&t1[0], sizeof t1[0]);
+#endif
 
 	/*
 	 * Compute the modulus (product of the two factors), to compare
